@@ -81,3 +81,29 @@ package machos
 //@        (old(sigSize) <= 4611686018427387904 ==> len(sigBuf) >= old(sigSize))
 //@   allocbound 0 4294967295
 //@   allocbound 1 4294967295 + 8
+//@
+//@ extern invoke debug/macho.Load.Raw
+//@   readonly
+//@   ensures len(ret0) >= 8
+//@
+//@ func readSigBlob
+//@   property C11
+//@   nopanic
+//@   requires r != nil && hdr != nil && hdr.ByteOrder != nil && forall(k, 0, len(hdr.Loads), hdr.Loads[k] != nil)
+//@   allocbound 0 10000000
+//@
+//@ func Verify
+//@   property C02
+//@   requires r != nil
+//@   ghost blobG []byte = nil
+//@   ghost vb *csblob.VerifiedBlob = nil
+//@   ghost sigOK bool = false
+//@   ghost pagesOK bool = false
+//@   on call readSigBlob(_, _) ret (b, e): blobG = b
+//@   before call csblob.Verify(b, p): assert @the_signature_blob_of_this_image_is_what_gets_verified sameslice(b, blobG)
+//@   on call csblob.Verify(_, _) ret (v, e): sigOK = (e == nil); vb = v
+//@   before call (*csblob.SigBlob).VerifyPages(sb, _): assert @page_hashes_belong_to_the_verified_signature sigOK && sb == vb.Blob
+//@   on call (*csblob.SigBlob).VerifyPages(_, _) ret (e): pagesOK = (e == nil)
+//@   ensures @signature_verified_and_code_pages_compared_unless_skipped ret1 == nil ==> sigOK && ret0 == vb && (!skipDigests ==> pagesOK)
+//@   ensures @verified_blob_with_at_least_one_code_directory ret1 == nil ==> ret0 != nil && ret0.Blob != nil && len(ret0.Blob.Directories) >= 1 && \
+//@        forall(k, 0, len(ret0.Blob.Directories), csblob.dirOK(ret0.Blob.Directories[k])) && forall(k, 0, len(ret0.Blob.Unknowns), len(ret0.Blob.Unknowns[k]) >= 8)
